@@ -14,7 +14,7 @@ weak spots of the monitors.
 """
 import json, os, random, re, subprocess, sys, shutil, time, multiprocessing
 
-BASE = "/tmp/ms"
+BASE = os.environ.get("MS_BASE", "/tmp/ms")
 CRATE_OF = {"C01": "lrv-codec", "C02": "lrv-codec", "C03": "lrv-codec", "C19": "lrv-codec", "C13": "lrv-phyref", "C14": "lrv-chip", "C18": "lrv-chip",
             "C15": "lrv-phy", "C16": "lrv-phy", "C17": "lrv-phy"}
 REPO_PKG = {"lorawan-encoding": "lorawan", "lorawan-device": "lorawan-device", "lora-phy": "lora-phy", "lora-modulation": "lora-modulation", "lorawan-macros": "lorawan-macros"}
@@ -174,7 +174,16 @@ def worker(args):
     subprocess.run(["git", "-C", "/repo", "worktree", "remove", "--force", wt], stdout=subprocess.DEVNULL, stderr=subprocess.DEVNULL)
     shutil.rmtree(wt, ignore_errors=True)
     shutil.rmtree(hz, ignore_errors=True)
-    subprocess.run(["git", "-C", "/repo", "worktree", "add", "--detach", wt, "HEAD"], stdout=subprocess.DEVNULL, stderr=subprocess.DEVNULL, check=True)
+    for attempt in range(6):
+        # (git serialises worktree administration with a lock: retry when another worker holds it)
+        r = subprocess.run(["git", "-C", "/repo", "worktree", "add", "--detach", wt, "HEAD"], stdout=subprocess.DEVNULL, stderr=subprocess.DEVNULL)
+        if r.returncode == 0:
+            break
+        time.sleep(1 + wid)
+        subprocess.run(["git", "-C", "/repo", "worktree", "prune"], stdout=subprocess.DEVNULL, stderr=subprocess.DEVNULL)
+        shutil.rmtree(wt, ignore_errors=True)
+    else:
+        raise RuntimeError("git worktree add failed for " + wt)
     subprocess.run(["rsync", "-a", "--exclude", "target", "/verif/harness/", hz + "/"], check=True)
     for f in os.listdir(hz):
         ct = os.path.join(hz, f, "Cargo.toml")
